@@ -64,3 +64,9 @@ Definition combine_old (ts : list ty) : option ty :=
 Definition binary_node_type_old (op : binop) (lt rt : ty) : ty :=
   let exp := if is_comparison op then TBool else lt in
   if is_empty_arr exp then rt else exp.
+
+(* parseBinaryExpr between f8788c6 and 6b5553c: only the TOP-LEVEL Fixed flag of the right operand was looked at *)
+Definition binary_node_type_pre_6b5553c (op : binop) (lt rt : ty) : ty :=
+  let exp := if is_comparison op then TBool else lt in
+  let t := if is_empty_arr exp && is_plus op then rt else exp in
+  if is_array_name t && fixed rt then fixed_type t else t.
